@@ -26,7 +26,8 @@ Tolerances (noise floors; ``kap = |X|/dx + 2`` is the amplification of the float
                                            64 single-precision cosines), so 16 would leave only 4.5x headroom)
   first moment 24*e*dx       constants 4*4^d*e*|c|       coordinates 4*4^d*eps_t*(|X|+2dx)     affine: same on sum|terms|
 Measured max error/tolerance, seeds 0..5 quick and seeds 0,1 thorough (``rec.stat``, also in evidence/C06.json):
-weights 0.055, sum 0.055, first moment 0.073, sign 0.0625, constants 0.080, coordinates 0.065, affine 0.061.
+weights 0.055, sum 0.055, first moment 0.054, sign 0.0625, constants 0.073, coordinates 0.070, affine 0.072
+(and |sum-1| <= 0.22 of DESIGN's 16*eps_t, stat ``sum_minus_one_over_design_16eps``).
 
 Deliberate breaks tried with ``tools/mut.sh --sed`` (files .../EulerianLagrangianGridCommunicator{2,3}D.py; quick
 tier, seed 0; every one reported VIOLATION, listed with the mechanisms that fired)
@@ -442,7 +443,8 @@ def _check_batch(rec, rng, comm, P, shape, pf, dxf, shiftf, eps, base, meta, ker
     r_s = np.abs((ssum - 1).astype(np.float64)) / tol_s
     rec.stat("sum_weights", float(r_s.max()))
     rec.stat(f"sum_{meta['dtype']}_{kernel}_{d}d", float(r_s.max()))
-    rec.stat("sum_minus_one_over_eps", float(np.max(np.abs((ssum - 1).astype(np.float64))) / eps))
+    # informative only: ratio to the 16*eps_t of DESIGN §4 C06 **T** (shows why the floor above is 64*eps_t)
+    rec.stat("sum_minus_one_over_design_16eps", float(np.max(np.abs((ssum - 1).astype(np.float64))) / (16 * eps)))
     if r_s.max() > 1:
         m = int(np.argmax(r_s))
         rec.violation("sum-weights!=1", f"marker {P0[:, m]}: sum w dx^d - 1 = {float(ssum[m] - 1):.3e} (tol {tol_s[m]:.2e}) {meta}", wit)
